@@ -61,16 +61,19 @@ Inductive clause : Type := ClNone | ClFilter | ClOrder.          (* ctx.disallow
 Inductive dvk : Type := DvNone | DvSel | DvFree | DvMut.         (* ctx.defining_view: none / a SELECT shape /
                                                                     an exposed trivial free-object shape /
                                                                     an INSERT or UPDATE shape *)
-Record cx : Type := { c_dis : clause; c_dv : dvk }.
-Definition top : cx := {| c_dis := ClNone; c_dv := DvNone |}.
+Record cx : Type := { c_dis : clause; c_dv : dvk; c_inl : bool }.
+(* c_inl: inside the body of an inlined function (compiled on a fresh context stack: init_stmt cannot find
+   the exposed outer level that exempts top-level free objects) *)
+Definition top : cx := {| c_dis := ClNone; c_dv := DvNone; c_inl := false |}.
+Definition in_inlined (c : cx) : cx := {| c_dis := c_dis c; c_dv := c_dv c; c_inl := true |}.
 Definition enter (c : cx) (p : pos) : cx :=
   match p with
   | PPlain => c
-  | PFilter => {| c_dis := ClFilter; c_dv := c_dv c |}
-  | POrder => {| c_dis := ClOrder; c_dv := c_dv c |}
-  | PShapeSel => {| c_dis := c_dis c; c_dv := DvSel |}
-  | PShapeFree => {| c_dis := c_dis c; c_dv := DvFree |}
-  | PShapeMut => {| c_dis := c_dis c; c_dv := DvMut |}
+  | PFilter => {| c_dis := ClFilter; c_dv := c_dv c; c_inl := c_inl c |}
+  | POrder => {| c_dis := ClOrder; c_dv := c_dv c; c_inl := c_inl c |}
+  | PShapeSel => {| c_dis := c_dis c; c_dv := DvSel; c_inl := c_inl c |}
+  | PShapeFree => {| c_dis := c_dis c; c_dv := DvFree; c_inl := c_inl c |}
+  | PShapeMut => {| c_dis := c_dis c; c_dv := DvMut; c_inl := c_inl c |}
   end.
 
 (* rejection reasons (bit mask; 0 = accepted) *)
@@ -103,11 +106,14 @@ Definition rej_clause (c : cx) : N :=
 (* a DML statement: the disallow_dml check of compile_<X>Query, then init_stmt's shape check *)
 Definition rej_dml (k : dmlkind) (c : cx) : N :=
   N.lor (if chk_of k then rej_clause c else 0)
-        (match c_dv c with DvSel => R_SHAPE | _ => 0 end).
-(* a call of a Modifying function: func.py only exempts trivial free objects through
-   partial_path_prefix, which does not hold where the generator can put a call *)
+        (match c_dv c with
+         | DvSel => R_SHAPE
+         | DvFree => if c_inl c then R_SHAPE else 0
+         | _ => 0
+         end).
+(* a call of a Modifying function: func.py exempts trivial free objects (ctx.partial_path_prefix) *)
 Definition rej_call (c : cx) : N :=
-  match c_dv c with DvSel | DvFree => R_SHAPE | _ => 0 end.
+  match c_dv c with DvSel => R_SHAPE | _ => 0 end.
 
 Record cinfo : Type := { ci_stored : vol; ci_body : cres }.
 
@@ -152,7 +158,7 @@ Fixpoint cal (S : list fdef) (f : N) (c : cx) {struct S} : option cinfo :=
   | d :: S' =>
       if f =? f_id d then
         Some {| ci_stored := stored_of d (r_vol (comp_e (cal S') top (f_body d)));
-                ci_body := comp_e (cal S') c (f_body d) |}
+                ci_body := comp_e (cal S') (in_inlined c) (f_body d) |}
       else cal S' f c
   end.
 
@@ -340,7 +346,10 @@ Definition touch_mig (s : sess) : sess :=
 
 Definition holder_rej (h : holder) (r : cres) : N :=
   match h with
-  | HAlias | HGlobal | HComputed | HPolicy => if r_rec r =? 0 then 0 else R_DDLCTX
+  | HAlias | HGlobal | HComputed | HPolicy =>
+      (* "mutations are invalid in ...", "volatile functions are not permitted in schema-defined computed
+         expressions", "... has a volatile using expression" *)
+      if (r_rec r =? 0) && vle (r_vol r) Stable then 0 else R_DDLCTX
   | HGlobalDefault => if vle (r_vol r) Stable then 0 else R_DDLCTX
   | HIndex => if vle (r_vol r) Immutable then 0 else R_DDLCTX
   | HPtrDefault | HTrigger | HRewrite => 0
@@ -370,7 +379,13 @@ Definition compile_ddl (s : sess) (st : stmt) (d : ddl) : outcome :=
       if in_mig s then Rej R_UNMODELLED else
       if negb (has_fn S f) then Rej R_NOFUNC else
       if existsb (fun d0 => negb (f =? f_id d0) && mentions f (f_body d0)) S then Rej R_EXISTS
-      else ok (set_fns s (remove_fn S f))
+      else
+        (* the remaining definitions are re-validated like after an ALTER; this never fails when no
+           remaining body mentions f (checked on every run by the correspondence), and keeps
+           "every reachable schema is valid" a direct invariant *)
+        let S' := remove_fn S f in
+        let w := schema_rej S' in
+        if w =? 0 then ok (set_fns s S') else Rej w
   | DHolder h e =>
       let r := comp_e (cal S) top e in
       let w := N.lor (r_rej r) (holder_rej h r) in
